@@ -182,8 +182,10 @@ def _real_construct(ver, s):
         if ver == "3":
             return "ok\t%s %s %s\t%s\t%s" % (_frac(o.base_score), _frac(o.temporal_score), _frac(o.environmental_score),
                                              ",".join("%s:%s" % kv for kv in sorted(o.metrics.items())), o.minor_version)
-        return "ok\t%s\t%s" % (",".join("%s:%s" % kv for kv in sorted(o.metrics.items())),
-                               ",".join("%s:%s" % kv for kv in sorted(o.original_metrics.items())))
+        from decimal import Decimal
+        return "ok\t%s\t%s\t%s\t%s" % (_frac(Decimal(repr(float(o.base_score)))), o.severity,
+                                       ",".join("%s:%s" % kv for kv in sorted(o.metrics.items())),
+                                       ",".join("%s:%s" % kv for kv in sorted(o.original_metrics.items())))
     except Exception as e:  # noqa
         return "incomparable\t%s: %s" % (type(e).__name__, e)
 
@@ -191,7 +193,7 @@ def _real_construct(ver, s):
 def _canon_k(ver, line):
     p = line.split("\t")
     if p and p[0] == "ok":
-        idx = [2] if ver in ("2", "3") else [1, 2]
+        idx = [2] if ver in ("2", "3") else [3, 4]
         for i in idx:
             if i < len(p) and p[i]:
                 p[i] = ",".join(sorted(p[i].split(",")))
@@ -283,6 +285,14 @@ def validate_translation(pid, tie, seed, scale=1):
         n_k = 0
         if "__init__" in r.get("translated", []) or (v == "4" and "parse_vector" in r.get("translated", [])):
             strs = _strings(v, rng, 1500 * scale)
+            if v == "4":
+                strs += [core.rand_vector("4", rng) for _ in range(4000 * scale)] + [core.rand_vector("4", rng, p_absent=0.2, p_nd=0.2)
+                                                                                     for _ in range(2000 * scale)]
+                try:
+                    strs += [x for x in core.special("4", rng, 400)]
+                except Exception:  # noqa
+                    pass
+                strs = [x for x in strs if core.sendable(x)]
             try:
                 gotk = _run_codedriver(["K%s\t%s" % (v, core.enc(s)) for s in strs])
             except Exception as e:  # noqa
